@@ -24,6 +24,7 @@ import Spydr.Verilog.Model
 import Spydr.Verilog.Spec
 import Spydr.Verilog.ModelElab
 import Spydr.Verilog.ModelText
+import Spydr.Verilog.ModelParse
 
 open Lean Spydr.Proto Spydr.Verilog
 
@@ -311,6 +312,11 @@ def itemOfJson (j : Json) : Except String Item := do
     let l ← xatomOfJson (← j.getObjVal? "l")
     let r ← xatomOfJson (← j.getObjVal? "r")
     pure (.assign l r)
+  | "defparam" =>
+    let i ← getStr j "inst"
+    let k ← getStr j "key"
+    let v ← getStr j "value"
+    pure (.defparam i k v)
   | _ => throw "item kind"
 
 open Spydr.Verilog.Elab in
@@ -367,6 +373,44 @@ def viewOfSt (s : St) : Json :=
           Json.mkObj [("name", Json.str i.name), ("ref", Json.str i.ref), ("params", ofParams i.params),
             ("attrs", ofOpt ofAttrs i.attrs), ("pins", ofList (ofList pinJ) rows)]) d.insts)]
   Json.mkObj [("top", ofOpt Json.str s.top), ("defs", ofList defJ s.defs)]
+
+/-! ### AST -> JSON (what parseV read) -/
+open Spydr.Verilog.Elab in
+def ofXAtom : XAtom → Json
+  | .id n => Json.arr #[Json.str "id", Json.str n]
+  | .bit n i => Json.arr #[Json.str "bit", Json.str n, ofInt i]
+  | .part n l r => Json.arr #[Json.str "part", Json.str n, ofInt l, ofInt r]
+  | .const c => Json.arr #[Json.str "const", Json.str c]
+
+open Spydr.Verilog.Elab in
+def ofXExpr : XExpr → Json
+  | .empty => Json.null
+  | .atom a => ofXAtom a
+  | .cat as => Json.mkObj [("cat", ofList ofXAtom as)]
+
+open Spydr.Verilog.Elab in
+def dirWord : Dir → Json
+  | .inp => Json.str "input" | .out => Json.str "output" | .inout => Json.str "inout" | .undef => Json.null
+
+def ofRng (r : Option (Int × Int)) : Json :=
+  ofOpt (fun (p : Int × Int) => Json.arr #[ofInt p.1, ofInt p.2]) r
+
+open Spydr.Verilog.Elab in
+def ofItem : Item → Json
+  | .portDecl d vt rng n => Json.mkObj [("t", Json.str "port"), ("dir", dirWord d), ("vt", ofOpt Json.str vt), ("rng", ofRng rng), ("n", Json.str n)]
+  | .wireDecl ty rng n a => Json.mkObj [("t", Json.str "wire"), ("ty", Json.str ty), ("rng", ofRng rng), ("n", Json.str n), ("attrs", ofAttrs a)]
+  | .inst m n ps a named cs => Json.mkObj [("t", Json.str "inst"), ("mod", Json.str m), ("n", Json.str n), ("params", ofParams ps),
+      ("attrs", ofAttrs a), ("named", Json.bool named),
+      ("conns", ofList (fun (c : Option String × XExpr) => Json.arr #[ofOpt Json.str c.1, ofXExpr c.2]) cs)]
+  | .assign l r => Json.mkObj [("t", Json.str "assign"), ("l", ofXAtom l), ("r", ofXAtom r)]
+  | .defparam i k v => Json.mkObj [("t", Json.str "defparam"), ("inst", Json.str i), ("key", Json.str k), ("value", Json.str v)]
+
+open Spydr.Verilog.Elab in
+def ofModule (m : Elab.Module) : Json :=
+  Json.mkObj [("name", Json.str m.name), ("prim", Json.bool m.prim), ("attrs", ofAttrs m.attrs), ("params", ofParams m.params),
+    ("header", ofList (fun (h : HPort) => Json.mkObj [("n", Json.str h.name), ("dir", ofOpt dirWord h.dir), ("rng", ofRng h.rng),
+        ("alias", match h.alias with | some e => Json.mkObj [("e", ofXExpr e)] | none => Json.null)]) m.header),
+    ("items", ofList ofItem m.items)]
 
 /-! ### text level -/
 def optAttrs (j : Json) (k : String) : Except String (Option (List (String × Option String))) :=
@@ -452,6 +496,16 @@ def handle (st : Unit) (j : Json) : Except String (Unit × Json) := do
   if fn == "lex" || fn == "compose" then
     let r ← handleText fn j
     pure (st, r)
+  else if fn == "parse" then
+    let t ← getStr j "text"
+    match Spydr.Verilog.Parse.parseV (Spydr.Verilog.Text.lexV t) with
+    | .ok ms => pure (st, Json.mkObj [("ok", Json.bool true), ("modules", ofList ofModule ms)])
+    | .error e => pure (st, Json.mkObj [("ok", Json.bool false), ("raise", Json.str e)])
+  else if fn == "read" then
+    let t ← getStr j "text"
+    match Spydr.Verilog.Parse.readV t with
+    | .ok s => pure (st, Json.mkObj [("ok", Json.bool true), ("view", viewOfSt s)])
+    | .error e => pure (st, Json.mkObj [("ok", Json.bool false), ("raise", Json.str e)])
   else if fn == "elab" then
     let ms ← (← getArr j "modules").toList.mapM moduleOfJson
     match Spydr.Verilog.Elab.elabDesign ms with
